@@ -1,6 +1,6 @@
 """Growth beyond the listed properties (DESIGN.md section 11): specifications of further behaviour of the library,
 model-checked and replayed into the code like the property checks, but *not* registered in MANIFEST.json (no
-listed property owns their verdicts).  usage: python -m harness.growth [lifecycle]"""
+listed property owns their verdicts).  usage: python -m harness.growth [lifecycle] [chainqueries]"""
 from __future__ import annotations
 
 import io
@@ -59,9 +59,92 @@ def lifecycle():
     return 1 if bad else 0
 
 
+def _chain_case(args):
+    """build the real chain of one abstract chain, record the plain queries and the tree print"""
+    import random
+    from . import chainio
+    cid, c, seed = args
+    rng = random.Random(seed)
+    c = chainio.norm_chain(c)
+    cz = chainio.ChainCZ(rng, chainio.chain_names(c))
+    dc = chainio.build_chain(cz, c, rng=rng)
+    buf = io.StringIO()
+    with redirect_stdout(buf):
+        dc.print_as_tree()
+    lines = []
+    for raw in buf.getvalue().splitlines():
+        k = raw.rfind("+--> ")
+        if k < 0:
+            lines.append({"pre": "", "arrow": False, "name": cz.rname(raw)})
+        else:
+            lines.append({"pre": raw[:k], "arrow": True, "name": cz.rname(raw[k + 5:])})
+    obs = {"ndecays": dc.ndecays, "bf": cz.rbf(dc.bf), "top_is_mothers": dc.top_level_decay() is dc.decays[dc.mother],
+           "lens": [[cz.rname(n), len(dm)] for n, dm in dc.decays.items()], "lines": lines}
+    return {"c": c, "rank": cz.rank, "obs": obs, "printed": buf.getvalue()}
+
+
+def chainqueries(nd=3, mb=2, extra=400):
+    """ChainQueries.tla: lemma + refutation by TLC, every chain of the universe replayed and judged"""
+    import random
+    ensure_repo_on_path()
+    from .core import pmap
+    from .c12 import random_chain
+    wd = tlc.new_workdir("chq")
+    rc = 0
+    try:
+        cfg = tlc.cfg_text(constants=dict(Mode="gen", NDecay=nd, MaxBag=mb), invariants=["AgreeWhenShallow", "SameNodes"])
+        r = tlc.run("ChainQueries", cfg, workdir=wd)
+        gen = [x["v"] for x in r.by_tag("case")]
+        bad = sum(1 for g in gen if not g["drawn_as_intended"])
+        print(f"ChainQueries gen NDecay={nd} MaxBag={mb}: {r.distinct} states, {len(gen)} chains, violated={r.violated}; "
+              f"{bad} chains are not drawn as documented (named deviation)")
+        if r.violated:
+            rc = 1
+        r2 = tlc.run("ChainQueries", tlc.cfg_text(constants=dict(Mode="gen", NDecay=nd, MaxBag=mb), invariants=["CodeIsIntended"]),
+                     workdir=wd, keep_records=False)
+        if "CodeIsIntended" not in r2.violated:
+            print("  NOTE: CodeIsIntended is no longer refuted in the model")
+        rng = random.Random(1)
+        chains = [g["c"] for g in gen] + [random_chain(rng, 5) for _ in range(extra)]
+        cases = pmap(_chain_case, [(i, c, 7 * i + 1) for i, c in enumerate(chains)])
+        tf = wd / "trace.json"
+        tf.write_text(json.dumps([{k: v for k, v in c.items() if k != "printed"} for c in cases]))
+        rj = tlc.run("ChainQueries", tlc.cfg_text(constants=dict(Mode="trace", NDecay=1, MaxBag=1)), workdir=wd,
+                     env={"TRACE_FILE": str(tf)}, timeout=3000)
+        acc = {x["tid"] for x in rj.by_tag("ACCEPT")}
+        rej = {x["tid"] for x in rj.by_tag("REJECT")}
+        if acc | rej != set(range(1, len(cases) + 1)) or acc & rej:
+            print(f"  MACHINERY: verdicts not total ({rj.stdout_path})")
+            return 2
+        print(f"chainqueries: {len(cases)} chains replayed ({len(gen)} enumerated + {extra} random), {len(rej)} rejected")
+        fails = {}
+        for x in rj.by_tag("FAIL"):
+            fails.setdefault(x["tid"], []).append(x)
+        for t in sorted(rej)[:5]:
+            print("  DISAGREEMENT", json.dumps({"clauses": [f["clause"] for f in fails.get(t, [])], "chain": cases[t - 1]["c"],
+                                                 "printed": cases[t - 1]["printed"]}))
+        if rej:
+            rc = 1
+        # binding self test: one corrupted prefix must be rejected
+        good = next((c for i, c in enumerate(cases) if (i + 1) in acc and len(c["obs"]["lines"]) > 2), None)
+        if good:
+            m = json.loads(json.dumps({k: v for k, v in good.items() if k != "printed"}))
+            m["obs"]["lines"][-1]["pre"] += " "
+            tf.write_text(json.dumps([m]))
+            rs = tlc.run("ChainQueries", tlc.cfg_text(constants=dict(Mode="trace", NDecay=1, MaxBag=1)), workdir=wd,
+                         env={"TRACE_FILE": str(tf)})
+            if not rs.by_tag("REJECT"):
+                print("  MACHINERY: corrupted prefix accepted")
+                return 2
+            print("  binding self test: corrupted prefix rejected")
+    finally:
+        tlc.cleanup(wd)
+    return rc
+
+
 if __name__ == "__main__":
-    which = sys.argv[1:] or ["lifecycle"]
+    which = sys.argv[1:] or ["lifecycle", "chainqueries"]
     rc = 0
     for w in which:
-        rc |= {"lifecycle": lifecycle}[w]()
+        rc |= {"lifecycle": lifecycle, "chainqueries": chainqueries}[w]()
     sys.exit(rc)
